@@ -56,7 +56,11 @@ def run_shard(exe, args, stdin=None):
     """Run the harness; returns (records, deaths).  A record = (L line, parsed O line)."""
     recs, deaths, restarts = [], [], 0
     while True:
-        rc, so, se = C.run_harness(exe, args, inp=stdin, timeout=3000, env=SAN)
+        try:
+            rc, so, se = C.run_harness(exe, args, inp=stdin, timeout=2400, env=SAN)
+        except Exception as e:   # timeout: nothing can be attributed
+            deaths.append({"request": None, "rc": -1, "stderr": "harness timeout: %r" % (e,), "scenario": None})
+            break
         lines = so.split("\n")
         cur, scen = None, None
         ended = False
